@@ -12,11 +12,11 @@ head, rest = tmpl.split('The library is supposed to satisfy this property:\n\n',
 _, rest = rest.split('YOUR TASK:', 1)
 task, rest = rest.split('NOTE: ', 1)
 _, tail = rest.split(' Choose a mechanism DIFFERENT from all four.', 1)
-words = {1: 'one other engineer has', 2: 'two', 3: 'three', 4: 'four', 5: 'five', 6: 'six'}
+words = {1: 'one other engineer has', 2: 'two', 3: 'three', 4: 'four', 5: 'five', 6: 'six', 7: 'seven', 8: 'eight'}
 for p in props:
     pid = p['id']; lc = pid.lower()
     earlier = []
-    for d in ['seeded', 'seeded/r2', 'seeded/r3', 'seeded/r4', 'seeded/r5', 'seeded/r6']:
+    for d in ['seeded', 'seeded/r2', 'seeded/r3', 'seeded/r4', 'seeded/r5', 'seeded/r6', 'seeded/r7', 'seeded/r8']:
         mp = '%s/%s/%s/meta.json' % (V, d, pid)
         pp = '%s/%s/%s/patch.diff' % (V, d, pid)
         if os.path.exists(mp) and os.path.exists(pp):
